@@ -1162,7 +1162,7 @@ def auto_th(n, baseline, target, fs='auto', mode='positive', auto_th_cb=None,
     data = (yield)
 
     # Now that we have our first chunk of data, calculate some basics.
-    if fs is None:
+    if fs is None or fs == 'auto':
         fs = data.fs
     baseline_samples = int(np.round(baseline * fs))
 
